@@ -21,7 +21,7 @@ Definition zz_opt_eqb (a b : option (Z * Z)) : bool :=
 Definition arith_cmp (c : arith_case) : list Z :=
   (if zz_opt_eqb (vote_period_i (ac_h c) (ac_p c)) (ac_vp c) then [] else [1])
   ++ (if option_eqb Z.eqb (round_start_u (ac_h c) (ac_p c)) (ac_rs c) then [] else [2])
-  ++ (if Bool.eqb (window_closing (ac_h c) (ac_p c) (ac_w c)) (ac_closing c) then [] else [3])
+  ++ (if Bool.eqb (window_closing_u (ac_h c) (ac_p c) (ac_w c)) (ac_closing c) then [] else [3])
   ++ (if Bool.eqb (valid_params (ac_p c) (ac_w c) (ac_mm c)) (ac_valid c) then [] else [4]).
 Definition arith_mismatches := indexed_failures arith_cmp.
 
@@ -30,7 +30,7 @@ Definition arith_mismatches := indexed_failures arith_cmp.
 Definition has_boundary (h p w : Z) : bool :=
   (0 <? w) && (1 <=? h / w) && (h - 2 * p <? (h / w) * w).
 Definition arith_prop (c : arith_case) : list Z :=
-  if ac_valid c && (ac_h c <? two63 - 2 * ac_p c - 2) then
+  if ac_valid c && (0 <=? ac_h c) && (ac_h c <? two63 / 4) then
     (if Bool.eqb (ac_closing c) (has_boundary (ac_h c) (ac_p c) (ac_w c)) then [] else [11])
     ++ (match ac_vp c, ac_rs c with
         | Some (pe, ve), Some s =>
